@@ -10,6 +10,7 @@
 //! mute <kind> <ns hex> <tp hex> -> sent|fail   (zero-window peer asking for a wrong-pattern role, never reading)
 //! oversize -> ok|fail:<text>  (bound replier survives a request that is too large only once tagged)
 //! alive -> ok|fail:<text>
+//! race -> ok|fail:<text>      (first registrations of both patterns released together on fresh topics, 25 rounds)
 //! iso -> ok|fail:<text>      (five confusable names used concurrently)
 //! end
 use crate::net::*;
@@ -213,6 +214,66 @@ pub async fn probe_isolation(client: &Client, tag: &str) -> Result<(), String> {
 
 /// a bound replier must survive (and keep being served) when another peer's request fits the frame
 /// limit as sent but not once the server has added its routing tag
+/// first registrations of both messaging patterns race for fresh topics: in every round eight
+/// streams on four connections are released together, four asking to subscribe and four to request.
+/// Every one must be answered Ok or the kind-mismatch error, the acknowledged ones must belong to one
+/// pattern, and an acknowledged stream must still be open a moment later.
+pub async fn probe_race(addr: std::net::SocketAddr, certs: &Certs, tag: &str, rounds: u64) -> Result<(), String> {
+    let mut peers = vec![];
+    for _ in 0..4 {
+        peers.push(std::sync::Arc::new(RawPeer::connect_trusted(addr, certs).await.map_err(|e| format!("connect:{:?}", e))?));
+    }
+    for t in 0..rounds {
+        let barrier = std::sync::Arc::new(tokio::sync::Barrier::new(8));
+        let mut tasks = vec![];
+        for k in 0..8usize {
+            let peer = peers[k % 4].clone();
+            let barrier = barrier.clone();
+            let (ns, tp) = (format!("race{}", tag), format!("t{:03}", t));
+            // the order of roles rotates with the round
+            let kind = if (k + t as usize) % 2 == 0 { "regsub" } else { "regreq" };
+            tasks.push(tokio::spawn(async move {
+                let mut r = Rng::new(k as u64);
+                let st = peer.open().await;
+                barrier.wait().await;
+                let mut st = match st {
+                    Ok(s) => s,
+                    Err(_) => return (kind, "open_failed".to_string(), false),
+                };
+                if st.send(frame_of(kind, &ns, &tp, 0, &mut r)).await.is_err() {
+                    return (kind, "send_failed".to_string(), false);
+                }
+                let reply = first_reply(&mut st, 4000).await;
+                let mut abandoned = false;
+                if reply == "ok" {
+                    abandoned = !matches!(tokio::time::timeout(Duration::from_millis(120), st.next()).await, Err(_));
+                }
+                (kind, reply, abandoned)
+            }));
+        }
+        let mut acked_ps = 0;
+        let mut acked_rr = 0;
+        for h in tasks {
+            let (kind, reply, abandoned) = h.await.map_err(|e| format!("join:{:?}", e))?;
+            if reply == "ok" {
+                if abandoned {
+                    return Err(format!("round_{}:a_{}_registration_was_acknowledged_and_then_abandoned", t, kind));
+                }
+                if kind == "regsub" { acked_ps += 1 } else { acked_rr += 1 }
+            } else if reply != format!("err:{}", selium_protocol::error_codes::TOPIC_KIND_MISMATCH) {
+                return Err(format!("round_{}:a_{}_registration_racing_for_a_fresh_topic_was_answered_{}", t, kind, reply));
+            }
+        }
+        if acked_ps > 0 && acked_rr > 0 {
+            return Err(format!("round_{}:roles_of_both_messaging_patterns_were_acknowledged_on_one_topic_({}_subscribers,_{}_requestors)", t, acked_ps, acked_rr));
+        }
+        if acked_ps + acked_rr == 0 {
+            return Err(format!("round_{}:nobody_was_acknowledged_on_a_fresh_topic", t));
+        }
+    }
+    Ok(())
+}
+
 pub async fn probe_oversize(peer: &RawPeer, ns: &str, tp: &str, r: &mut Rng) -> Result<(), String> {
     async fn register(peer: &RawPeer, kind: &str, ns: &str, tp: &str, r: &mut Rng) -> Result<BiStream, String> {
         let mut st = peer.open().await.map_err(|e| format!("open:{:?}", e))?;
@@ -401,6 +462,14 @@ pub async fn run_case(addr: std::net::SocketAddr, certs: &Certs, seed: u64, i: u
         Ok(()) => "ok".to_string(),
         Err(e) => format!("fail:{}", clean(e)),
     });
+    let res = match tokio::time::timeout(Duration::from_millis(60000), probe_race(addr, certs, &format!("{}x{}", seed % 100_000, i), 25)).await {
+        Ok(r) => r,
+        Err(_) => Err("no_answer_within_60s".to_string()),
+    };
+    let _ = writeln!(out, "race -> {}", match res {
+        Ok(()) => "ok".to_string(),
+        Err(e) => format!("fail:{}", clean(e)),
+    });
     let _ = writeln!(out, "end");
     drop(mute);
 }
@@ -419,14 +488,14 @@ pub fn main(args: &[String]) {
             for l in text.lines() {
                 let t: Vec<&str> = l.split_whitespace().collect();
                 if t.len() >= 4 && t[0] == "case" && t[1] == "srv" {
-                    run_case(addr, &certs, t[2].parse().unwrap(), t[3].parse().unwrap(), &mut out).await;
+                    crate::guard_case!(out, 300, run_case(addr, &certs, t[2].parse().unwrap(), t[3].parse().unwrap(), &mut out));
                 }
             }
         } else {
             let seed: u64 = args.get(1).and_then(|s| s.parse().ok()).unwrap_or(1);
             let n: u64 = args.get(2).and_then(|s| s.parse().ok()).unwrap_or(3);
             for i in 0..n {
-                run_case(addr, &certs, seed, i, &mut out).await;
+                crate::guard_case!(out, 300, run_case(addr, &certs, seed, i, &mut out));
             }
         }
         let _ = std::fs::remove_dir_all(&dir);
